@@ -2,6 +2,18 @@
 """Writes /verif/seeded/README.md from seeded/*/meta.json, result.json and the notes below."""
 import glob, json, os
 NOTES = {
+    'C01_7': 'round 4; missed at first (no source ever ended cleanly and came back); the specification gained Again (a source that has ended is started again, its stream goes on; exits only in the first incarnation) - model check, replay and random runs with the join holding the other source\'s frame - caught since',
+    'C01_8': 'round 4; missed at first (the documented warning switches were always on); runs alternate ZMQ_WARN_OLDER / ZMQ_WARN_NEWER = false - caught since',
+    'C02_7': 'round 4; missed at first by C02 (the join with sources_timeout was only in C01); C02 gained the silent-source runs - caught since',
+    'C02_8': 'round 4; missed at first (no relay returned a callable that yields None); the specification gained lazy-None relays (mq.ln, design mutation lazy_none_keeps_state - no counterexample within bounds), replay conforms; C02 gained directed kills of a slow producer right after such a frame - caught since',
+    'C03_7': 'round 4; missed at first (ids never skipped on the trunk before a tee with a slow branch); C03 gained TrunkTeeRejoin - caught since',
+    'C03_8': 'round 4; missed at first (the short subscription forms were only used in C02); C03 gained RemapMain - caught since',
+    'C04_7': 'round 4; missed at first (no stall scenario declared required outputs); added - caught since',
+    'C04_8': 'round 4; caught as the checks stood (design mutation bal_eph_reenables)',
+    'C05_7': 'round 4; missed at first (no consumer had to pull a source up to sparse ids while a listener registered after it); C05 gained JoinSparseEph in the late-listener differential - caught since',
+    'C05_8': 'round 4; NOT caught (conformance drift only): needs libzmq message trackers (send(copy=False, track=True) + tracker.wait()) over a flow-controlled pipe to a connected listener that has stopped reading, with parts of 64 KiB or more and more than a thousand queued messages; simzmq does not model trackers',
+    'C06_7': 'round 4; missed at first (no consumer died behind a publisher blocked in one send() call); C06 gained the non-required death behind a blocking publisher - caught since',
+    'C06_8': 'round 4; caught as the checks stood', 'C07_7': 'round 4', 'C07_8': 'round 4 (same switch as C01_8)',
     'C01_5': 'round 3; caught as the checks stood',
     'C01_6': 'round 3; missed at first (a publisher never died inside one publish); C01 gained the kill-inside-a-publish enumeration (1..m-1 of the m messages of a frame set delivered, the rest lost with the publisher, restart on the same address) - caught since',
     'C02_5': 'round 3; missed at first (no consumer ran in low-latency mode); the specification\'s lowlat behaviour is now exercised (model check, replay with publisher kills) and the design mutation ll_prev_stale yields the schedule - caught since',
